@@ -1,7 +1,7 @@
 """C12 Server schedules and slotted services follow the declared cyclic timetable."""
 from ..families import *
 from .. import oracles
-from ..history import History, markers
+from ..history import History, markers, _called_from
 
 
 class Monitor(object):
@@ -62,7 +62,8 @@ class Monitor(object):
             self.violate("service_started_on_off_duty_server", {"node": nid, "server": server.id_number, "id": ind.id_number, "now": now})
         if tt.servers_before(now) == 0 and tt.servers_at(now) == 0:
             self.violate("service_started_while_zero_servers_scheduled", {"node": nid, "id": ind.id_number, "now": now})
-        if self.opt[nid]:
+        if self.opt[nid] and not _called_from("preempt"):
+            # (a priority pre-emption at an arrival is not a "fresh customer served when servers return")
             inter = list(node.interrupted_individuals)
             if inter:
                 best = min((i.priority_class, i.arrival_date) for i in inter)
@@ -174,7 +175,8 @@ class Spec(object):
         return "interrupted_at_shift_end" in res.flags or "overtime" in res.flags or "slot_started" in res.flags
 
     def families(self, tier):
-        return focused(tier)
+        from .. import universal
+        return focused(tier) + universal.subset(tier, ["sched", "slotted"])
 
 
 def focused(tier):
